@@ -174,8 +174,11 @@ func (m *manager) restartRequest(chid datatransfer.ChannelID,
 	result, err := m.validateRestart(chst)
 	stayPaused := result.LeaveRequestPaused(chst)
 
-	// if an error occurred during validation return
+	// if an error occurred during validation, the restart is refused and the transport
+	// closed: fail the channel, as a rejection does, rather than leaving it open with
+	// nothing that could ever move it
 	if err != nil {
+		_ = m.channels.Error(chid, err)
 		return stayPaused, result, err
 	}
 
